@@ -1,7 +1,7 @@
 (* C16 — Compiled bytecode behaves like the tree-walking evaluator.
    Property theorems only; proofs are [exact <lemma of CompileProofs>]. *)
 From Coq Require Import ZArith NArith List String.
-From EvyV Require Import Base Bytecode SymTab Vm VmProofs Compile CompileProofs CompileWfProofs CompileStmtProofs CompileJumpProofs CompileHoleProofs CompileCtlProofs CompileSemProofs.
+From EvyV Require Import Base Bytecode SymTab Vm VmProofs Compile CompileSem CompileProofs CompileWfProofs CompileStmtProofs CompileJumpProofs CompileHoleProofs CompileCtlProofs CompileSemProofs.
 Import ListNotations.
 Open Scope list_scope.
 
@@ -109,11 +109,10 @@ Print Assumptions C16_compile_correct_straightline.
    `for i := range …` WITH a loop variable, which the compiler makes a global:
    the semantics assigns none to i, then the index in every round; a zero step
    is a run-time error, so the semantics is undefined there; likewise
-   `for x := range iterable` over the elements of an array, the characters of
-   a string or the keys of a map, counted like the VM with a number starting
-   at 0) and `break` (inside a loop only: nb_stmt), arbitrarily nested, all expressions in efrag
-   (_partial: no loop variables inside blocks, no iterable ranges without loop
-   variable, no block-local declarations, no maps / slices / element stores).  The boolean of a result of exec_l says that a break is
+   `for x := range iterable` — and `for range iterable` without loop variable,
+   anywhere — over the elements of an array, the characters of a string or the
+   keys of a map, counted like the VM with a number starting at 0) and `break` (inside a loop only: nb_stmt), arbitrarily nested, all expressions in efrag
+   (_partial: no loop variables inside blocks, no block-local declarations, no maps / slices / element stores).  The boolean of a result of exec_l says that a break is
    under way; the innermost loop ends it.  The VM keeps the state of a range
    loop (index, step, stop) on the operand stack: the simulation carries the
    stack `base` below the statement, and OpDrop removes the state at the exit
@@ -224,7 +223,7 @@ Theorem C16_compile_vm_safe_ctl_partial : forall (p : slist) (st : cstate),
     match vm_step prog s with
     | Running _ | Failed _ => True
     | Halted s' => ip s' = N.of_nat (List.length (pcode prog)) /\ sp_of s' = plcount prog
-    | Crashed c => c = CType
+    | Crashed c => c = CType \/ (repeat_guarded = false /\ c = CHost)
     end.
 Proof.
   intros p st HF HC HB prog. apply wf_vm_safe_partial.
@@ -468,6 +467,29 @@ Example C16_ex_foriter_defined :
   match compile ex_foriter with
   | COk st => match vm_run 4000 (program_of (bytecode_of st)) (vm_init (program_of (bytecode_of st))) with
               | FHalted s => globals s = [VNum (float_of_Z 12); VStr [98%N; 97%N]; VNum (float_of_Z 5); VStr [98%N]] /\ ostack s = []
+              | _ => False
+              end
+  | CErr _ => False
+  end.
+Proof. vm_compute. repeat split; try reflexivity. discriminate. Qed.
+
+(* n := 0; for range [7 8 9]: for range "ab": n = n + 1 end end   -- n = 6 *)
+Definition ex_foriter0 : slist :=
+  let num k := ENum (float_of_Z k) in
+  SCons (SDecl (s_ "n") (num 0%Z))
+ (SCons (SForIter None TArr (EArr (ECons (num 7%Z) (ECons (num 8%Z) (ECons (num 9%Z) ENil))))
+          (SCons (SForIter None TStr (EStr (s_ "ab"))
+                    (SCons (SAssign (EVar (s_ "n")) (EBin BPlus TNum TNum (EVar (s_ "n")) (num 1%Z))) SNil)) SNil)) SNil).
+
+Example C16_ex_foriter0_defined :
+  psfrag ex_foriter0 = true /\ (ldepth ex_foriter0 <= Gen.Opcodes.StackSize)%N /\
+  match exec_l 60 ex_foriter0 (fun _ => None) with
+  | Some (env, false) => env (s_ "n") = Some (VNum (float_of_Z 6))
+  | _ => False
+  end /\
+  match compile ex_foriter0 with
+  | COk st => match vm_run 4000 (program_of (bytecode_of st)) (vm_init (program_of (bytecode_of st))) with
+              | FHalted s => globals s = [VNum (float_of_Z 6)] /\ ostack s = []
               | _ => False
               end
   | CErr _ => False
